@@ -727,15 +727,17 @@ var mul64 = []*instructionType{
 		effects: func(i instruction) []expr.Effect {
 			r1, r2 := regLoad(rs1, i, width64), regLoad(rs2, i, width64)
 			r1Abs := exprtools.Abs(r1, width64)
-			mul := expr.NewBinary(expr.Mul, r1Abs, r2, width128)
+			mulAbs := expr.NewBinary(expr.Mul, r1Abs, r2, width128)
+			// The whole double width product has to be negated.
+			mul := exprtools.BoolCond(
+				exprtools.IntNegative(r1, width64),
+				exprtools.Negate(mulAbs, width128),
+				mulAbs,
+				width128,
+			)
 			shift := expr.ConstFromUint[uint8](64)
 			shifted := expr.NewBinary(expr.Rsh, mul, shift, width128)
-			val := exprtools.BoolCond(
-				exprtools.IntNegative(r1, width64),
-				shifted,
-				exprtools.Negate(shifted, width64),
-				width64,
-			)
+			val := exprtools.NewWidthGadget(shifted, width64)
 			return []expr.Effect{regStore(val, i, width64)}
 		},
 	}, {
